@@ -1,4 +1,6 @@
 import GeoVerif.Proofs.DMSClosure
+import GeoVerif.Proofs.DMSNul
+import GeoVerif.Proofs.DMSStrVal
 /-!
 # C10 — text formatting and parsing of angles and positions: property theorems
 
@@ -438,6 +440,114 @@ theorem azimuth_no_latitude (s : Bytes) (v : F64) (h : decodeAzimuth s = .ok v) 
     covered by the exact correspondence on the NUL-containing mutation / random streams, not by a theorem. -/
 theorem nul_rejected_partial (f np : Nat) (sl : Slots) (s : Bytes) (h : 0 ∈ s) : ∃ e, comps f np sl s = .error e :=
   comps_nul f np sl s h
+
+/-- **`decode_nul_rejected`: `Decode` rejects every string that contains a NUL byte** (finding F6, the full statement):
+    the substitution table (no pattern contains a NUL), trimming, the splitting at signs and the hemisphere / sign
+    stripping all keep the NUL inside some piece, the component loop rejects it (`nul_rejected_partial`) and the
+    `nan` / `inf` spellings of `Utility::nummatch` do not contain it. -/
+theorem decode_nul_rejected (s : Bytes) (h : 0 ∈ s) : ∃ e, decode s = .error e := decode_nul s h
+
+/-- the steps: each stage keeps a NUL byte -/
+theorem nul_survives_stages (s : Bytes) (h : 0 ∈ s) :
+    0 ∈ replaceAll s ∧ 0 ∈ trim s ∧ (∃ p ∈ pieces (s.length + 1) true s, 0 ∈ p) ∧ nummatch s = none ∧
+    (∀ st, strip s = .ok st → 0 ∈ st.body) :=
+  ⟨replaceAll_keeps_nul s h, trim_keeps_nul s h, pieces_keep_nul s h, nummatch_nul s h, fun _ hs => strip_keeps_nul hs h⟩
+
+example : (decode [49, 0, 50]).toOption.isNone = true := by decide +kernel
+
+/-! ## sums of signed pieces -/
+
+/-- **splitting at signs**: a first piece `[letter][sign]text` and later pieces `sign text` (texts free of `+ -`) are
+    exactly what `Decode` hands to `InternalDecode` -/
+theorem pieces_at_signs (p1 : Bytes) (rest : List Bytes) (h1 : FirstPiece p1) (hr : ∀ p ∈ rest, LaterPiece p)
+    (fuel : Nat) (hf : (p1 :: rest).flatten.length ≤ fuel) : pieces fuel true (p1 :: rest).flatten = p1 :: rest :=
+  pieces_split p1 rest h1 hr fuel hf
+
+/-- **`decode_sum`: a string of signed pieces decodes to the left-to-right binary64 sum `((-0 + x₁) + x₂) + …` of the
+    values of its pieces** (each addition correctly rounded: `F64.add`), with the hemisphere flags combined
+    (`foldFlags`: equal or absent, otherwise an error); an error in any piece is an error of the whole.  Stated for plain
+    text (`replaceAll` and `trim` are the identity on it; for texts over the plain alphabet see `replaceAll_noop`). -/
+theorem decode_sum (p1 : Bytes) (rest : List Bytes) (h1 : FirstPiece p1) (hr : ∀ p ∈ rest, LaterPiece p)
+    (hrep : replaceAll (p1 :: rest).flatten = (p1 :: rest).flatten)
+    (htrim : trim (p1 :: rest).flatten = (p1 :: rest).flatten)
+    (xs : List (F64 × Flag)) (hx : (p1 :: rest).map internalDecode = xs.map Except.ok) :
+    decode (p1 :: rest).flatten =
+      match foldFlags (xs.map (·.2)) Flag.none with
+      | .error e => .error e
+      | .ok f => .ok ((xs.map (·.1)).foldl F64.add F64.nzero, f) :=
+  decode_sum_value p1 rest h1 hr hrep htrim xs hx
+
+/-- … and before evaluating the pieces: `Decode` is `sumPieces` over exactly those pieces -/
+theorem decode_sum_pieces (p1 : Bytes) (rest : List Bytes) (h1 : FirstPiece p1) (hr : ∀ p ∈ rest, LaterPiece p)
+    (hrep : replaceAll (p1 :: rest).flatten = (p1 :: rest).flatten)
+    (htrim : trim (p1 :: rest).flatten = (p1 :: rest).flatten) :
+    decode (p1 :: rest).flatten = sumPieces (p1 :: rest) F64.nzero Flag.none :=
+  DMSProofs.decode_sum p1 rest h1 hr hrep htrim
+
+/-- an error in any piece is an error of the sum -/
+theorem sum_error (ps : List Bytes) (h : ∃ p ∈ ps, ∃ e, internalDecode p = .error e) (v : F64) (ind : Flag) :
+    ∃ e, sumPieces ps v ind = .error e := sumPieces_error_of_mem ps h v ind
+
+-- non-vacuity: `S3-2.5+4.1N` satisfies the hypotheses
+example : FirstPiece (strBytes "S3") ∧ ∀ p ∈ [strBytes "-2.5", strBytes "+4.1N"], LaterPiece p := ⟨example_first, example_later⟩
+
+/-- the substitution table and trimming leave plain text alone (no `*`, grave accent, high-bit byte; at most one `'`;
+    no white space) -/
+theorem plain_text_untouched (s : Bytes) (hA : ∀ c ∈ s, c < 128 ∧ c ≠ 42 ∧ c ≠ 96 ∧ isspace c = false) (h39 : s.count 39 ≤ 1) :
+    replaceAll s = s ∧ trim s = s :=
+  ⟨replaceAll_noop s (fun c hc => ⟨(hA c hc).1, (hA c hc).2.1, (hA c hc).2.2.1⟩) h39, trim_noop s (fun c hc => (hA c hc).2.2.2)⟩
+
+/-! ## hemisphere letter and sign rules of `InternalDecode` (all strings) -/
+
+/-- a hemisphere letter at both ends is an error ("Repeated or contradictory hemisphere indicators") -/
+theorem hemisphere_repeated (a b : Nat) (mid : Bytes) (ha : isHemi a = true) (hb : isHemi b = true) :
+    ∃ e, strip (a :: (mid ++ [b])) = .error e := strip_two_hemispheres a b mid ha hb
+
+/-- a sign directly after a leading hemisphere letter is accepted and multiplies the letter's sign -/
+theorem sign_after_hemisphere (hemi sg : Nat) (body : Bytes) (hh : isHemi hemi = true) (hs : isSign sg = true)
+    (hne : body ≠ []) (hlast : ∀ c ∈ body.getLast?, isHemi c = false) :
+    strip (hemi :: sg :: body) =
+      .ok ⟨(if lookup DMSC.signs sg = 0 then !hemiNeg (lookup DMSC.hemispheres hemi) else hemiNeg (lookup DMSC.hemispheres hemi)),
+           hemiFlag (lookup DMSC.hemispheres hemi), body⟩ :=
+  strip_sign_after_leading_hemi hemi sg body hh hs hne hlast
+
+/-- … likewise a leading sign with a trailing letter -/
+theorem sign_with_trailing_hemisphere (sg hemi : Nat) (body : Bytes) (hs : isSign sg = true) (hh : isHemi hemi = true)
+    (hne : body ≠ []) :
+    strip (sg :: (body ++ [hemi])) =
+      .ok ⟨(if lookup DMSC.signs sg = 0 then !hemiNeg (lookup DMSC.hemispheres hemi) else hemiNeg (lookup DMSC.hemispheres hemi)),
+           hemiFlag (lookup DMSC.hemispheres hemi), body⟩ :=
+  strip_sign_with_trailing_hemi sg hemi body hs hh hne
+
+/-- only one sign is removed: a second one is an "Internal sign" error of the piece -/
+theorem internal_sign_rejected (body : Bytes) (hne : body ≠ []) (hlast : ∀ c ∈ body.getLast?, isHemi c = false) :
+    internalDecode (45 :: 45 :: body) = .error "Internal sign" := internalDecode_double_sign body hne hlast
+
+/-! ## `Utility::val (Utility::str x p)` -/
+
+/-- non-finite values round-trip through their spellings, at every precision -/
+theorem str_val_nonfinite (p : Nat) :
+    (match utilVal (utilStr .nan p) with | .ok .nan => true | _ => false) = true ∧
+    (match utilVal (utilStr (.inf false) p) with | .ok (.inf false) => true | _ => false) = true ∧
+    (match utilVal (utilStr (.inf true) p) with | .ok (.inf true) => true | _ => false) = true := by
+  have h1 : utilStr .nan p = strBytes "nan" := rfl
+  have h2 : utilStr (.inf false) p = strBytes "inf" := rfl
+  have h3 : utilStr (.inf true) p = strBytes "-inf" := rfl
+  rw [h1, h2, h3]
+  decide +kernel
+
+/-- **`val` reads back exactly what `str` printed** (finite `x`, every precision `p`): the text is `[-]I[.F]` with
+    `p` decimals (`fmtFixed_shape`), has no white space, and the stream-extraction model returns the correctly rounded
+    (`ofDecExp` = strtod) value of `N / 10^p`, `N = fixedUnits x p` = `|x|·10^p` rounded half-even to an integer, with the
+    sign of `x`.  So `val (str x p)` differs from `x` by the half unit of `fixedUnits` plus one rounding
+    (`str_val_roundtrip` below for the bound). -/
+theorem str_val_reads_units (s : Bool) (m : Nat) (e : Int) (p : Nat) :
+    trim (utilStr (.fin s m e) p) = utilStr (.fin s m e) p ∧
+    valPlain (utilStr (.fin s m e) p) =
+      (match ofDecExp (fixedUnits (.fin s m e) p) (0 - (p : Int)) with
+       | .inf _ => none
+       | v => some (if s then F64.neg v else v)) :=
+  ⟨trim_noop _ (fmtFixed_nospace _ p), valPlain_fmtFixed s m e p⟩
 
 /-- none of the substitution patterns contains a NUL, and none replaces by a digit, point or letter: the table can only
     produce `d ' " + -` or delete (Gen-obligation) -/
